@@ -266,9 +266,41 @@ pub fn run(tier: &str, seed: u64) -> Stats {
     metas.extend((1..=40).step_by(if tier == "thorough" { 1 } else { 3 }).map(Some));
     metas.push(Some(1000));
     let rounds = if tier == "thorough" { 6 } else { 1 };
-    for _ in 0..rounds {
-        pke_cases(&fx, &mut st, &mut rng, &lens, tier == "thorough");
-        header_cases(&fx, &mut st, &mut rng, &metas);
+    // the two layers are independent: one thread each (plus one per round in the thorough tier)
+    let fx = std::sync::Arc::new(fx);
+    let mut hs = vec![];
+    for r in 0..rounds {
+        for layer in 0..2 {
+            let fx = fx.clone();
+            let lens = lens.clone();
+            let metas = metas.clone();
+            let mut rng = rng.fork(r as u64 * 2 + layer);
+            let deep = tier == "thorough";
+            hs.push(std::thread::spawn(move || {
+                let mut st = Stats::default();
+                // each thread gets its own instance for the RNG (calls hold its lock throughout)
+                let local = Fixture {
+                    cc: Covercrypt::default(),
+                    msk: de::<MasterSecretKey>(&ser(&fx.msk).ok().unwrap()).ok().unwrap(),
+                    mpk: de::<MasterPublicKey>(&ser(&fx.mpk).ok().unwrap()).ok().unwrap(),
+                    keys: fx.keys.iter().map(|k| (k.0, k.1.clone(), k.2, k.3)).collect(),
+                    classic_ap: fx.classic_ap.clone(),
+                    hybrid_ap: fx.hybrid_ap.clone(),
+                };
+                if layer == 0 {
+                    pke_cases(&local, &mut st, &mut rng, &lens, deep);
+                } else {
+                    header_cases(&local, &mut st, &mut rng, &metas);
+                }
+                st
+            }));
+        }
+    }
+    for h in hs {
+        match h.join() {
+            Ok(s) => st.merge(s),
+            Err(_) => st.inconclusive.push("worker died".into()),
+        }
     }
     st.sample(json!({"pke_plaintext_lengths": "0..=80,255,256,4095,4096,65537", "metadata_lengths": format!("{metas:?}"), "aad": "absent, empty, 'x', 'y', 33 random bytes; all 5x5 (generate, decrypt) pairs", "keys": fx.keys.iter().map(|k| k.0).collect::<Vec<_>>()}), 3);
     let mut seen = std::collections::BTreeSet::new();
